@@ -479,6 +479,16 @@ def setup():
     log("setup: parsing specs with SANY")
     for f in sorted(os.listdir(SPEC)):
         if f.endswith(".tla"):
+            if "EXTENDS Integers, FiniteSets, Apalache" in open(os.path.join(SPEC, f)).read():
+                # typed module for Apalache (its standard module is not on SANY's path): type-checked by Apalache itself
+                wd = os.path.join(WORK, "apalache_tc_%d" % os.getpid())
+                os.makedirs(wd, exist_ok=True)
+                shutil.copy(os.path.join(SPEC, f), wd)
+                rc, out, _ = sh(["apalache-mc", "typecheck", f], cwd=wd, check=False, timeout=600)
+                shutil.rmtree(wd, ignore_errors=True)
+                if "EXITCODE: OK" not in out:
+                    raise ToolError("Apalache rejected %s:\n%s" % (f, out[-3000:]))
+                continue
             rc, out, _ = sh(["tla-sany", f], cwd=SPEC, check=False, timeout=300)
             if rc != 0 or "Semantic errors" in out or "*** Errors" in out or "Parse Error" in out:
                 raise ToolError("SANY rejected %s:\n%s" % (f, out[-3000:]))
